@@ -95,7 +95,12 @@ def models(run_model, fail_points):
     def m_identity(ex, st, a, dst, callee):
         return [(a[0], [], None)]
 
-    return [(r"^std::sync::Mutex::<.*>::lock$|^std::sync::RwLock::<.*>::(read|write)$", m_lock),
+    def m_guard_deref(ex, st, a, dst, callee):
+        v = deref_val(ex, st, a[0]) if isinstance(a[0], Ref) else a[0]
+        return [(v if isinstance(v, Ref) else a[0], [], None)]
+
+    return [(r"^<std::sync::(?:MutexGuard|RwLockWriteGuard|RwLockReadGuard)<.*> as Deref(?:Mut)?>::deref(?:_mut)?$|^<Arc<.*> as Deref>::deref$", m_guard_deref),
+            (r"^std::sync::Mutex::<.*>::lock$|^std::sync::RwLock::<.*>::(read|write)$", m_lock),
             (r"^MemTable::(node_properties_for_wal|edge_properties_for_wal|removed_node_properties_for_wal|removed_edge_properties_for_wal)$", m_empty_vec),
             (r"^MemTable::freeze_into_run$", m_freeze), (r"^Wal::append$", m_append), (r"^Wal::fsync$", m_fsync),
             (r"^IdMap::apply_create_node$", m_event("idmap.create_node", Enum("Ok", [Tup([])]))),
@@ -214,4 +219,258 @@ def run(fail_points):
 TARGETS = [
     {"name": "c01_o5_q_commit_write_ahead_protocol", "crate": "nervusdb-storage", "run": run(False)},
     {"name": "c01_o5_q_commit_fault_at_any_log_operation", "crate": "nervusdb-storage", "run": run(True)},
+]
+
+
+# ------------------------------------------------------------------------------------------------ index maintenance (C15-O3)
+def index_models(idx_name, label_some, events):
+    from ..mapmodel import MAP_MODELS
+    from ..symex import subcall
+
+    def m_node_label(ex, st, a, dst, callee):
+        return [(Enum("Some", [z3.BitVec("primary_label", 32)]), [], "label=Some"), (Enum("None"), [], "label=None")]
+
+    def m_get_name(ex, st, a, dst, callee):
+        return [(Enum("Some", [z3.BitVec("label_name", 32)]), [], None)]
+
+    def m_format(ex, st, a, dst, callee):
+        return [(idx_name, [], None)]
+
+    def m_opaque(ex, st, a, dst, callee):
+        return [(Opaque("fmt"), [], None)]
+
+    def full(ex, st, v):
+        ref = None
+        for _ in range(4):
+            if isinstance(v, Ref):
+                ref = v
+                v = deref_val(ex, st, v)
+        return v, ref
+
+    def m_catalog_get(ex, st, a, dst, callee):
+        cat, cref = full(ex, st, a[0])
+        a = [cref if cref is not None else a[0]] + list(a[1:])
+        key = a[1]
+        for _ in range(3):
+            if isinstance(key, Ref):
+                key = deref_val(ex, st, key)
+        entries = cat.fields[1]
+        alts, none = [], []
+        for i, kv in enumerate(entries.items):
+            alts.append((Enum("Some", [Ref(a[0].root, list(a[0].projs) + [("field", 1, None), ("elem", i), ("field", 1, None)])]), none + [kv.fields[0] == key], "index exists"))
+            none = none + [kv.fields[0] != key]
+        alts.append((Enum("None"), none, "no index"))
+        return alts
+
+    def m_node_property(ex, st, a, dst, callee):
+        return [(Enum("Some", [z3.BitVec("old_value", 32)]), [], "old=Some"), (Enum("None"), [], "old=None")]
+
+    def m_opt_map_fn(ex, st, a, dst, callee):
+        return [(a[0], [], None)]
+
+    def m_load(ex, st, a, dst, callee):
+        root = a[0].fields[0] if isinstance(a[0], Struct) else a[0]
+        return [(Struct("BTree", {0: Struct("PageId", {0: root})}), [], None)]
+
+    def m_tree_op(kind):
+        def f(ex, st, a, dst, callee):
+            key, _ = full(ex, st, a[2])
+            k = len(events(st))
+            new_root = z3.BitVec("root_after_op%d" % k, 64)
+            ex._write(st, a[0].root, list(a[0].projs), Struct("BTree", {0: Struct("PageId", {0: new_root})}))
+            ret = Enum("Ok", [Tup([])]) if kind == "insert" else Enum("Ok", [TRUE])
+            return [(("EV", (kind, list(key.items) if isinstance(key, PyVec) else key, a[3], new_root), ret), [], None)]
+        return f
+
+    def m_root(ex, st, a, dst, callee):
+        return [(full(ex, st, a[0])[0].fields[0], [], None)]
+
+    def m_encode(ex, st, a, dst, callee):
+        v = a[0]
+        for _ in range(3):
+            if isinstance(v, Ref):
+                v = deref_val(ex, st, v)
+        if not z3.is_bv(v):
+            raise Unsupported("encode_ordered_value of something that is not a value id")
+        return [(PyVec([z3.Extract(8 * i + 7, 8 * i, v) for i in (3, 2, 1, 0)]), [], None)]
+
+    def m_flush(ex, st, a, dst, callee):
+        return [(("EV", ("flush",), Enum("Ok", [Tup([])])), [], None)]
+
+    def m_any(ex, st, a, dst, callee):
+        m = re.search(r"\{closure@([^}]*)\}", callee)
+        it = deref_val(ex, st, a[0]) if isinstance(a[0], Ref) else a[0]
+        if not m or not isinstance(it, ByteIt):
+            return None
+        from ..bytesmodel import buf_of
+        items = buf_of(ex, st, it.ref).items
+        if it.pos >= len(items):
+            return [(FALSE, [], None)]
+        fn = ex.mf.resolve_closure(m.group(1))
+        st.env["$any_closure"] = a[1]
+        alts, none = [], []
+        for i in range(it.pos, len(items)):
+            elem = Ref(it.ref.root, list(it.ref.projs) + [("elem", i)])
+            s2 = st.fork()
+            s2.pc += none
+            res = subcall(ex, s2, fn, [Ref("$any_closure"), elem if "any" in callee else Ref("$any_elem")])
+            if isinstance(res, str):
+                return res
+            hit = z3.Or([z3.And(extra + [val == TRUE]) for val, extra in res])
+            alts.append((TRUE, none + [hit], None))
+            none = none + [z3.Not(hit)]
+        alts.append((FALSE, none, None))
+        return alts
+
+    def m_find(ex, st, a, dst, callee):
+        m = re.search(r"\{closure@([^}]*)\}", callee)
+        it = deref_val(ex, st, a[0]) if isinstance(a[0], Ref) else a[0]
+        if not m or not isinstance(it, ByteIt):
+            return None
+        from ..bytesmodel import buf_of
+        items = buf_of(ex, st, it.ref).items
+        fn = ex.mf.resolve_closure(m.group(1))
+        st.env["$find_closure2"] = a[1]
+        alts, none = [], []
+        for i in range(it.pos, len(items)):
+            elem = Ref(it.ref.root, list(it.ref.projs) + [("elem", i)])
+            st.env["$find_elem2"] = elem
+            s2 = st.fork()
+            s2.pc += none
+            res = subcall(ex, s2, fn, [Ref("$find_closure2"), Ref("$find_elem2")])
+            if isinstance(res, str):
+                return res
+            hit = z3.Or([z3.And(extra + [val == TRUE]) for val, extra in res])
+            alts.append((Enum("Some", [elem]), none + [hit], None))
+            none = none + [z3.Not(hit)]
+        alts.append((Enum("None"), none, None))
+        return alts
+
+    def m_slice_iter(ex, st, a, dst, callee):
+        return [(ByteIt(a[0]), [], None)] if isinstance(a[0], Ref) else None
+
+    def m_clone(ex, st, a, dst, callee):
+        v = a[0]
+        if isinstance(v, Ref):
+            v = deref_val(ex, st, v)
+        return [(v, [], None)]
+
+    return [(r"^<StorageSnapshot as GraphSnapshot>::node_label$", m_node_label), (r"^LabelInterner::get_name$", m_get_name),
+            (r"^std::fmt::format$|alloc::fmt::format$", m_format), (r"^core::fmt::rt::Argument::<'_>::new_display::<|^Arguments::<'_>::new::<", m_opaque),
+            (r"^must_use::<", lambda ex, st, a, dst, callee: [(a[0], [], None)]),
+            (r"^IndexCatalog::get$", m_catalog_get), (r"^<StorageSnapshot as GraphSnapshot>::node_property$", m_node_property),
+            (r"^std::option::Option::<PropertyValue>::map::<PropertyValue, fn", m_opt_map_fn), (r"^BTree::load$", m_load),
+            (r"^BTree::insert$", m_tree_op("insert")), (r"^BTree::delete$", m_tree_op("delete")), (r"^BTree::root$", m_root),
+            (r"^encode_ordered_value$", m_encode), (r"^IndexCatalog::flush$", m_flush),
+            (r"^<std::slice::Iter<'_, .*> as Iterator>::any::<", m_any), (r"^<std::slice::Iter<'_, .*> as Iterator>::find::<", m_find),
+            (r"slice::<impl \[.*\]>::iter$", m_slice_iter), (r"^<PropertyValue as Clone>::clone$|^<std::string::String as Clone>::clone$", m_clone)] + MAP_MODELS
+
+
+def run_index(kind):
+    """kind: 'set-existing' (SET on a node that exists), 'set-new' (node created by this transaction), 'remove' (REMOVE on an existing node)."""
+    def go(mf, tier):
+        fn = mf.find(r"engine\.rs[^>]*>::commit\(_1: WriteTxn")
+        fields = struct_fields("nervusdb-storage/src/engine.rs", "WriteTxn")
+        ix = {n: i for i, n in enumerate(fields)}
+        efields = struct_fields("nervusdb-storage/src/engine.rs", "GraphEngine")
+        eix = {n: i for i, n in enumerate(efields)}
+        B = lambda n, w=32: z3.BitVec(n, w)     # noqa: E731
+        txid, node, key, newv = B("txid", 64), B("node"), B("prop_key"), B("new_value")
+        idx_name, idx_id, root0 = B("index_name"), B("index_id"), B("root_before", 64)
+        run_model = Struct("L0RunModel", {0: PyVec(), 1: PyVec(), 2: PyVec()})
+
+        def events(st):
+            return [e for e in st.env.get("$trace", []) if e[0] in ("insert", "delete", "flush")]
+        props = PyVec([Tup([node, key, newv])]) if kind in ("set-existing", "set-new") else PyVec()
+        removed = PyVec([Tup([node, key])]) if kind == "remove" else PyVec()
+
+        def m_props(ex, st, a, dst, callee):
+            if callee.endswith("::node_properties_for_wal"):
+                return [(props, [], None)]
+            if callee.endswith("removed_node_properties_for_wal"):
+                return [(removed, [], None)]
+            return [(PyVec(), [], None)]
+        mods = [(r"^MemTable::(node_properties_for_wal|edge_properties_for_wal|removed_node_properties_for_wal|removed_edge_properties_for_wal)$", m_props)] + \
+            index_models(idx_name, True, events) + models(run_model, False)
+        st = State()
+        eng = {i: Opaque("engine." + n) for i, n in enumerate(efields)}
+        eng[eix["index_catalog"]] = Struct("IndexCatalog", {0: Opaque("catalog-page"), 1: PyVec([Tup([idx_name, Struct("IndexDef", {0: idx_id, 1: Struct("PageId", {0: root0})})])])})
+        st.env["$engine"] = Struct("GraphEngine", eng)
+        txn = {i: Opaque("txn." + n) for i, n in enumerate(fields)}
+        txn[ix["engine"]] = Ref("$engine")
+        txn[ix["txid"]] = txid
+        txn[ix["created_nodes"]] = PyVec([Tup([B("ext_id", 64), B("created_label"), node])]) if kind == "set-new" else PyVec()
+        txn[ix["pending_label_additions"]] = PyVec()
+        txn[ix["pending_label_removals"]] = PyVec()
+        st.env["_1"] = Struct("WriteTxn", txn)
+        vi = variant_index("nervusdb-storage/src/wal.rs", "WalRecord")
+        vi.update({"Insert": 0, "Update": 1, "Remove": 2})
+        ex = TraceExec(fn, mods, bound=6, mf=mf, inline=r"^$", variant_index=vi, max_paths=5000)
+        paths = ex.run("bb0", st)
+        failed, n, with_index = [], 0, 0
+
+        def key_is(kbytes, value):
+            want = [z3.Extract(8 * i + 7, 8 * i, idx_id) for i in (3, 2, 1, 0)] + [z3.Extract(8 * i + 7, 8 * i, value) for i in (3, 2, 1, 0)]
+            if not isinstance(kbytes, list) or len(kbytes) != len(want):
+                return z3.BoolVal(False)
+            return z3.And([a == b for a, b in zip(kbytes, want)])
+        oldv = z3.BitVec("old_value", 32)
+        for p in paths:
+            if p.kind == "panic":
+                failed.append("commit can panic in the index phase: %s" % str(p.info)[:70])
+                continue
+            if p.kind == "bound":
+                raise Unsupported("commit cut by the loop bound")
+            if p.kind != "return" or not (isinstance(p.ret, Enum) and p.ret.variant == "Ok"):
+                continue
+            n += 1
+            evs = events(p.st)
+            ops = [e for e in evs if e[0] in ("insert", "delete")]
+            has_index = "index exists" in p.events and "label=None" not in p.events
+            if kind == "set-new":
+                has_index = "index exists" in p.events
+            if not has_index:
+                if ops:
+                    failed.append("the index is modified although the node has no label / the label.property pair has no index")
+                continue
+            with_index += 1
+            want = []
+            if kind in ("set-existing", "remove") and "old=Some" in p.events:
+                want.append(("delete", oldv))
+            if kind in ("set-existing", "set-new"):
+                want.append(("insert", newv))
+            if [o[0] for o in ops] != [w[0] for w in want]:
+                failed.append("index maintenance for %s performs %s instead of %s" % (kind, [o[0] for o in ops], [w[0] for w in want]))
+                continue
+            for o, w in zip(ops, want):
+                if not ex.entails(p.pc, z3.And(key_is(o[1], w[1]), o[2] == z3.ZeroExt(32, node))):
+                    failed.append("the index %s uses a key other than [index id][encoded %s value] or another node id" % (o[0], "old" if w[0] == "delete" else "new"))
+            entries = p.st.env["$engine"].fields[eix["index_catalog"]].fields[1]
+            final_root = entries.items[0].fields[1].fields[1]
+            final_root = final_root.fields[0] if isinstance(final_root, Struct) else final_root
+            if ops:
+                if not ex.entails(p.pc, final_root == ops[-1][3]):
+                    failed.append("after index maintenance (%s) the catalog does not point at the tree's current root: later lookups and updates work on a stale subtree"
+                                  % "+".join(o[0] for o in ops))
+                if not any(e[0] == "flush" for e in evs):
+                    failed.append("the index catalog is not flushed after index maintenance")
+            elif not ex.entails(p.pc, final_root == root0):
+                failed.append("the catalog root changes although the index was not touched")
+        if not with_index and not failed:
+            raise Unsupported("no path reaches index maintenance (vacuous)")
+        res = {"paths": n, "queries": ex.queries, "solver_time_s": round(ex.solver_time, 3),
+               "sample": ["%s: one property change; label / index existence / old value forked; %d Ok paths reach index maintenance" % (kind, with_index)],
+               "functions": ["engine::WriteTxn::commit (index maintenance phase)"]}
+        if failed:
+            res.update({"status": "fail", "failed": sorted(set(failed)), "reason": "; ".join(sorted(set(failed)))[:500]})
+        else:
+            res["status"] = "pass"
+        return res
+    return go
+
+
+TARGETS += [
+    {"name": "c15_o3_q_commit_index_maintenance_set_on_existing_node", "crate": "nervusdb-storage", "run": run_index("set-existing")},
+    {"name": "c15_o3_q_commit_index_maintenance_set_on_new_node", "crate": "nervusdb-storage", "run": run_index("set-new")},
+    {"name": "c15_o3_q_commit_index_maintenance_remove", "crate": "nervusdb-storage", "run": run_index("remove")},
 ]
